@@ -62,7 +62,7 @@ func (c StepCase) String() string {
 	return fmt.Sprintf("%s parked at pass %d of %s", c.Victim, c.Skip+1, c.Site)
 }
 
-var StepVictims = []string{"join", "leave", "switch", "delete", "lastleave", "create", "compadd-vs-delete", "compadd-vs-leave", "action-vs-delete", "action-vs-leave", "action-vs-action"}
+var StepVictims = []string{"join", "leave", "switch", "delete", "lastleave", "create", "compadd-vs-delete", "compadd-vs-leave", "action-vs-delete", "action-vs-leave", "action-vs-action", "compupd-vs-unsub"}
 
 // stepSiteOK: points on the victim's own path; points that every connection
 // or the frame worker pass all the time would park somebody else.
@@ -106,6 +106,9 @@ type stepEnv struct {
 	n2ok   bool
 	c1, c2 *scen.C // create sessions of their own during the park
 	extra  []*scen.C
+	// entities added (and moved) by the connections themselves in the pose step:
+	// own requests are not echoed, so they are put into the owner's view by hand
+	own map[*scen.C]model.Entity
 }
 
 func (en *stepEnv) all() []*scen.C {
@@ -149,6 +152,11 @@ func stepSetup(p *sut.Proc, victim string) *stepEnv {
 	must(err)
 	_, err = m.Action(en.e0, "a0", 1_700_000_000, "x")
 	must(err)
+	// a few more attachments, so that what a newcomer is handed is a list
+	_, err = m.Action(en.e0, "a1", 1_700_000_000, "x1")
+	must(err)
+	_, err = m.Action(en.e0, "a2", 1_700_000_000, "x2")
+	must(err)
 	_, err = m.AddAsset(en.e0, "as0")
 	must(err)
 	w := scen.MustDial(p, "vod")
@@ -185,6 +193,17 @@ func stepSetup(p *sut.Proc, victim string) *stepEnv {
 		must(err)
 	case "action-vs-action":
 		_, _, err = v.Join(en.sid)
+		must(err)
+	case "compupd-vs-unsub":
+		// a second subscriber of the type, which unsubscribes while the victim's
+		// update is on its way to the subscribers
+		_, _, err = v.Join(en.sid)
+		must(err)
+		o := scen.MustDial(p, "vod")
+		en.o = o
+		_, _, err = o.Join(en.sid)
+		must(err)
+		_, err = o.Subscribe(en.t)
 		must(err)
 	case "create":
 	case "lastleave":
@@ -267,6 +286,8 @@ func (en *stepEnv) fire(victim string) {
 		v.Close()
 	case "compadd-vs-delete", "compadd-vs-leave":
 		must(v.Send(&hagallpb.EntityComponentAddRequest{Type: d.TCompAddReq, Timestamp: d.NewTag(), RequestId: v.NextReqID(), EntityComponentTypeId: en.t2, EntityId: en.eO, Data: []byte("late")}))
+	case "compupd-vs-unsub":
+		must(v.Send(&hagallpb.EntityComponentUpdate{Type: d.TCompUpdate, Timestamp: d.NewTag(), EntityComponentTypeId: en.t, EntityId: en.e0, Data: []byte("vu")}))
 	case "action-vs-action":
 		// older than the action the mutator's script sets on the same key
 		// (1_700_000_100), newer than the one stored at setup (1_700_000_000)
@@ -371,6 +392,15 @@ func (en *stepEnv) interfere(victim string) (err error) {
 		en.x.Close()
 		departed(en.x, "the extra member")
 	}
+	if victim == "compupd-vs-unsub" {
+		var a *d.Event
+		if a, _, err = en.o.Do(&hagallpb.EntityComponentTypeUnsubscribeRequest{Type: d.TUnsubReq, Timestamp: d.NewTag(), RequestId: en.o.NextReqID(), EntityComponentTypeId: en.t}); err != nil {
+			return
+		}
+		if a == nil || a.Type != d.TUnsubResp {
+			return fmt.Errorf("the unsubscribe was not answered with success: %v", a)
+		}
+	}
 	if strings.HasSuffix(victim, "-vs-delete") {
 		if _, err = en.o.DeleteEntity(en.eO); err != nil {
 			return
@@ -412,6 +442,14 @@ func StepSites(p *sut.Proc, victim string) (cases []StepCase, err error) {
 	} else {
 		_, err := en.v.Barrier()
 		must(err)
+		if victim == "compupd-vs-unsub" {
+			// the update is executed at the next frame tick
+			if ok, reason, err := p.WaitTicks(en.sid, 3, 10*time.Second); err != nil || !ok {
+				return nil, fmt.Errorf("frame barrier failed: %s %v", reason, err)
+			}
+			_, err = en.v.Barrier()
+			must(err)
+		}
 	}
 	h, err := p.RTHits()
 	must(err)
@@ -663,6 +701,64 @@ func StepRun(p *sut.Proc, c StepCase) (res *StepResult) {
 			return
 		}
 	}
+	// --- C11: every member of the session still has its pose updates relayed
+	// (its frame handler is registered): each adds an entity and moves it once
+	if !gone[m] && !gone[w] {
+		type poser struct {
+			who string
+			c   *scen.C
+			e   uint32
+			px  float32
+		}
+		var posers []*poser
+		for i, cand := range []struct {
+			who string
+			c   *scen.C
+		}{{"the mutator", m}, {"the newcomer that joined while the victim was parked", en.n}, {"the victim", v}, {"the second victim", en.v2}} {
+			if cand.c == nil || gone[cand.c] {
+				continue
+			}
+			if cand.c == v && (c.Victim == "create" || c.Victim == "lastleave") {
+				continue
+			}
+			if cand.c == en.v2 && (c.Victim2 != "join2" || en.target != en.sid) {
+				continue
+			}
+			e, err := cand.c.AddEntity(true, 50)
+			must(err)
+			if e == 0 {
+				continue // not a member of the session (a refused join)
+			}
+			ps := &poser{cand.who, cand.c, e, float32(7000 + i)}
+			_, err = cand.c.Pose(e, ps.px)
+			must(err)
+			if en.own == nil {
+				en.own = map[*scen.C]model.Entity{}
+			}
+			en.own[cand.c] = model.Entity{ID: e, Owner: cand.c.PID, Persist: true, Pose: model.Pose{ps.px, 0, 0, 0, 0, 0, 1}}
+			posers = append(posers, ps)
+		}
+		barrierAll()
+		if ok, reason, err := p.WaitTicks(en.sid, 4, 10*time.Second); err != nil || !ok {
+			res.Inconclusive = fmt.Sprintf("%s: frame barrier failed: %s %v", c, reason, err)
+			return
+		}
+		barrierAll()
+		for _, ps := range posers {
+			seen := false
+			for _, e := range w.LogCopy() {
+				if pb, ok := e.M.(*hagallpb.EntityUpdatePoseBroadcast); ok && pb.EntityId == ps.e && pb.Pose.GetPx() == ps.px {
+					seen = true
+				}
+			}
+			if !seen {
+				res.Findings = append(res.Findings, sf([]string{"C11", "C07"}, "pose/never-relayed", c, "%s moved its entity %d; four frames later the witness has not been relayed the pose: the member's pending updates are no longer flushed", ps.who, ps.e))
+			}
+		}
+		if len(res.Findings) > 0 {
+			return
+		}
+	}
 	// --- C07 / C10: every connection that was answered with a successful join
 	// and is still open is in a live session that can be found under its id
 	type claim struct {
@@ -747,20 +843,25 @@ func StepRun(p *sut.Proc, c StepCase) (res *StepResult) {
 func (en *stepEnv) judgeSession(c StepCase, res *StepResult, snap *scen.Snapshot) {
 	v, w := en.v, en.w
 	server := stateFromProbe(snap)
-	// referential integrity of what a newcomer is handed
+	// referential integrity of what a newcomer is handed (for a departure:
+	// "removed together with everything attached to them", C06)
+	dep := []string{}
+	if c.Victim == "leave" || strings.HasSuffix(c.Victim, "-vs-leave") || c.Abort {
+		dep = []string{"C06"}
+	}
 	for k := range server.Comps {
 		if _, ok := server.Entities[k.Entity]; !ok {
-			res.Findings = append(res.Findings, sf([]string{"C12", "C01"}, "integrity/component-without-entity", c, "a probe is handed component (type %d, entity %d) but no entity %d", k.Type, k.Entity, k.Entity))
+			res.Findings = append(res.Findings, sf(append([]string{"C12", "C01"}, dep...), "integrity/component-without-entity", c, "a probe is handed component (type %d, entity %d) but no entity %d", k.Type, k.Entity, k.Entity))
 		}
 	}
 	for k := range server.Actions {
 		if _, ok := server.Entities[k.Entity]; !ok {
-			res.Findings = append(res.Findings, sf([]string{"C16", "C01"}, "integrity/action-without-entity", c, "a probe is handed action (%d, %q) but no entity %d", k.Entity, k.Name, k.Entity))
+			res.Findings = append(res.Findings, sf(append([]string{"C16", "C01"}, dep...), "integrity/action-without-entity", c, "a probe is handed action (%d, %q) but no entity %d", k.Entity, k.Name, k.Entity))
 		}
 	}
 	for e := range server.Assets {
 		if _, ok := server.Entities[e]; !ok {
-			res.Findings = append(res.Findings, sf([]string{"C16", "C01"}, "integrity/asset-without-entity", c, "a probe is handed an asset instance on entity %d but no such entity", e))
+			res.Findings = append(res.Findings, sf(append([]string{"C16", "C01"}, dep...), "integrity/asset-without-entity", c, "a probe is handed an asset instance on entity %d but no such entity", e))
 		}
 	}
 	if len(res.Findings) > 0 {
@@ -875,6 +976,18 @@ func (en *stepEnv) judgeSession(c StepCase, res *StepResult, snap *scen.Snapshot
 	if strings.HasSuffix(c.Victim, "-vs-leave") {
 		departedChecks("the owner that left while the victim was attaching to its entity", en.o, en.eO, 0)
 	}
+	if c.Victim == "compupd-vs-unsub" {
+		answered := false
+		for _, e := range en.o.LogCopy() {
+			if e.Type == d.TUnsubResp {
+				answered = true
+				continue
+			}
+			if u, ok := e.M.(*hagallpb.EntityComponentUpdateBroadcast); ok && answered && u.EntityComponent.GetEntityComponentTypeId() == en.t {
+				res.Findings = append(res.Findings, sf([]string{"C13"}, "subscription/notified-after-unsubscribe-was-answered", c, "a participant whose unsubscribe of type %d had been answered received a later update notification of that type (data %q)", en.t, u.EntityComponent.GetData()))
+			}
+		}
+	}
 	if c.Victim == "action-vs-action" {
 		// both actions were accepted (or the older one refused): the server keeps the latest timestamp
 		got := server.Actions[model.ActKey{Entity: en.e0, Name: "a0"}]
@@ -930,8 +1043,17 @@ func (en *stepEnv) judgeSession(c StepCase, res *StepResult, snap *scen.Snapshot
 	}
 	for _, vw := range views {
 		vv := foldLog(vw.c, vw.sub...)
+		if oe, ok := en.own[vw.c]; ok {
+			vv.Entities[oe.ID] = oe
+		}
 		if diff := vv.Diff(server, "vod"); len(diff) > 0 {
-			res.Findings = append(res.Findings, sf([]string{"C01"}, "view/diverged-after-step", c, "the view of %s (state handed on joining + relays received, applied on top) differs from the state handed to a probe: %s\n   its stream: %v", vw.who, strings.Join(diff, "; "), vw.c.LogCopy()))
+			props := []string{"C01"}
+			for _, dl := range diff {
+				if strings.HasPrefix(dl, "action") || strings.HasPrefix(dl, "asset") {
+					props = []string{"C01", "C16"}
+				}
+			}
+			res.Findings = append(res.Findings, sf(props, "view/diverged-after-step", c, "the view of %s (state handed on joining + relays received, applied on top) differs from the state handed to a probe: %s\n   its stream: %v", vw.who, strings.Join(diff, "; "), vw.c.LogCopy()))
 		}
 	}
 }
